@@ -310,6 +310,7 @@ def run(ctx):
             ctx.violation("disk-cut-lock-leak", "entry cut at byte %d: lock still held after the with-block (%s)" % (n, outcome), dict(cut=n, size=len(blob), outcome=outcome))
     ctx.extra["disk_cuts"] = len(blob)
     real_processes(ctx, keys)
+    slot_agreement(ctx, keys)
     ctx.assumptions += ["one virtual scheduling point per lock acquisition, sleep, inner-cache operation and body boundary; code between two points runs atomically (as in the property's stated granularity)",
                         "callers are threads; caller processes share the same code path through the injected lock/list"]
 
@@ -369,6 +370,49 @@ def real_processes(ctx, keys):
             if any(n > 1 for n in runs.values()):
                 ctx.violation("real-process-getter-twice", "the getter ran more than once for a key that stayed cached: %s" % dict(runs), dict(progs=progs))
     ctx.extra["real_process_rounds"] = ctx.pick(2, 8)
+
+
+def _slot_entry(q, d, arr, lock, key):
+    """Which lock-table entries does a caller PROCESS hold inside the body of get_set(key)?  (observed, not computed)"""
+    import coba.context.cachers as C
+    cc = C.ConcurrentCacher(C.MemoryCacher(), arr, lock)
+    with cc.get_set(key, lambda: "v") as _:
+        held = [i for i, v in enumerate(arr) if v != 0]
+    q.put((key, held, [i for i, v in enumerate(arr) if v != 0]))
+
+
+def slot_agreement(ctx, keys):
+    """Cacher.tla's `Idx` is a function of the key alone: every caller - thread or process - guards a key with the
+    same lock-table entry.  CobaMultiprocessor's workers are spawned interpreters, each with its own string-hash salt,
+    so the binding starts caller processes with different PYTHONHASHSEED values and compares the entry each one holds."""
+    import multiprocessing as mp
+    from ctypes import c_short
+    sp = mp.get_context("spawn")
+    saved = os.environ.get("PYTHONHASHSEED")
+    seeds = ctx.pick(["0", "1", "random"], ["0", "1", "2", "12345", "random", "random"])
+    try:
+        for kname in ("k1", "k3"):
+            key = keys[kname]; seen = {}
+            for hs in seeds:
+                os.environ["PYTHONHASHSEED"] = hs
+                arr = sp.RawArray(c_short, [0] * 2 ** 16); lock = sp.Lock(); q = sp.Queue()
+                p = sp.Process(target=_slot_entry, args=(q, None, arr, lock, key)); p.start()
+                try: _, held, after = q.get(timeout=120)
+                except Exception:
+                    ctx.violation("real-process-hang", "a lone caller process did not finish get_set within 120 s", dict(key=key, hashseed=hs)); p.kill(); continue
+                p.join(timeout=30)
+                ctx.case(("slot", kname, hs))
+                if after: ctx.violation("real-process-lock-leak", "lock table not clear after a lone caller process left", dict(key=key, hashseed=hs, after=after))
+                seen[hs] = held
+            if len({tuple(v) for v in seen.values()}) > 1:
+                ctx.violation("lock-entry-differs-between-processes",
+                              "caller processes (spawned interpreters with different string-hash salts) guard key %r with different lock-table entries: %s - between them the key is not locked at all" % (key, seen),
+                              dict(key=key, held=seen))
+            if any(len(v) != 1 for v in seen.values()):
+                ctx.violation("lock-entry-count", "inside the body of get_set a lone caller holds %s lock-table entries for key %r (exactly one expected)" % (seen, key), dict(key=key, held=seen))
+    finally:
+        if saved is None: os.environ.pop("PYTHONHASHSEED", None)
+        else: os.environ["PYTHONHASHSEED"] = saved
 
 
 def _proc_entry(q, d, arr, lock, who, prog, keys):
